@@ -91,6 +91,9 @@ type Property struct {
 	Assumptions []string
 	Families    []Family
 	Floors      []Floor
+	// Sanitize lists the families that the thorough tier replays (at quick size)
+	// under the -race (checkptr) and -asan builds of the worker.
+	Sanitize []string
 	// DeathKF attributes a worker death (Go fatal) to a known finding id, or "".
 	DeathKF func(family string, stderr string) string
 	// Extra lets the property add keys to coverage from the aggregate.
